@@ -315,3 +315,14 @@ func prunedWalk(g *cfg.CFG, atom func(ast.Expr) int, visit func(n ast.Node) bool
 		walk(g.Blocks[0])
 	}
 }
+
+// loopBody returns the body of a for or range statement, nil for any other node.
+func loopBody(n ast.Node) *ast.BlockStmt {
+	switch x := n.(type) {
+	case *ast.ForStmt:
+		return x.Body
+	case *ast.RangeStmt:
+		return x.Body
+	}
+	return nil
+}
